@@ -208,3 +208,7 @@ def alpha_key(node: ast.AST) -> str:
         except SyntaxError:
             return unparse(node)
     return unparse(R().visit(fresh))
+
+
+# the Repo currently analysed (set by Engine.__init__); lets syntax helpers resolve class-level constants through the MRO
+CURRENT_REPO: list = [None]
